@@ -83,10 +83,23 @@ Definition name_eqb (a b : name) : bool :=
   | _, _ => false
   end.
 
-Inductive mtype := TCall | TReturn | TError | TSignal.
+(* the four message types the specification defines (the only ones a match rule can name) ... *)
+Inductive ktype := KCall | KReturn | KError | KSignal.
+(* ... and the type byte of a message, which may be any other non-zero value (DBUS_NUM_MESSAGE_TYPES and up) *)
+Inductive mtype := TKnown (k : ktype) | TOther (n : N).
+Notation TCall := (TKnown KCall).
+Notation TReturn := (TKnown KReturn).
+Notation TError := (TKnown KError).
+Notation TSignal := (TKnown KSignal).
+Definition ktype_eqb (a b : ktype) : bool :=
+  match a, b with
+  | KCall, KCall | KReturn, KReturn | KError, KError | KSignal, KSignal => true
+  | _, _ => false
+  end.
 Definition mtype_eqb (a b : mtype) : bool :=
   match a, b with
-  | TCall, TCall | TReturn, TReturn | TError, TError | TSignal, TSignal => true
+  | TKnown x, TKnown y => ktype_eqb x y
+  | TOther x, TOther y => x =? y
   | _, _ => false
   end.
 
@@ -147,7 +160,7 @@ Definition stamp (c : cid) (m : bmsg) : bmsg :=      (* dbus_message_set_sender 
 
 (* ---------------------------------------------------------------- filters (match rules) *)
 Record flt := mkFilter {
-  f_type : option mtype;
+  f_type : option ktype;
   f_sender : option name;
   f_dest : option name;
   f_iface : option N;
@@ -201,8 +214,8 @@ Definition unlink (own : registry) (n : name) (c : cid) : registry :=
   filter (fun p => negb (name_eqb (fst p) n && (snd p =? c))) own.
 
 (* ---------------------------------------------------------------- matching *)
-Definition opt_type_ok (f : option mtype) (t : mtype) : bool :=
-  match f with None => true | Some x => mtype_eqb x t end.
+Definition opt_type_ok (f : option ktype) (t : mtype) : bool :=
+  match f with None => true | Some x => mtype_eqb (TKnown x) t end.
 (* a rule key on a string header field: the field must be present and equal *)
 Definition opt_code_ok (f : option N) (v : N) : bool :=
   match f with None => true | Some x => negb (v =? 0) && (x =? v) end.
@@ -241,10 +254,38 @@ Fixpoint recips (own : registry) (eaves : bool) (rules : list (cid * flt)) (from
       else recips own eaves rest from addr m seen
   end.
 
-(* bus_matchmaker_get_recipients.  The four rule pools only decide the order among DIFFERENT recipients
-   of one message, which no socket can observe; one pass over the insertion-ordered list. *)
+(* BusMatchmaker keeps one rule list per (rule type, rule interface) pool, each in insertion order; a rule lives in the
+   pool chosen by its own type= and interface= keys.  Here: ONE insertion-ordered list, a pool is the sub-list of its
+   members (as in coq/Match/Bus.v). *)
+Definition opt_k_same (a b : option ktype) : bool :=
+  match a, b with None, None => true | Some x, Some y => ktype_eqb x y | _, _ => false end.
+Definition opt_N_same (a b : option N) : bool :=
+  match a, b with None, None => true | Some x, Some y => x =? y | _, _ => false end.
+Definition in_pool (t : option ktype) (i : option N) (r : cid * flt) : bool :=
+  opt_k_same (f_type (snd r)) t && opt_N_same (f_iface (snd r)) i.
+Definition pool (rules : list (cid * flt)) (t : option ktype) (i : option N) : list (cid * flt) := filter (in_pool t i) rules.
+
+(* the successive get_recipients_from_list calls share the delivery stamp *)
+Fixpoint passes (own : registry) (eaves : bool) (pools : list (list (cid * flt))) (from addr : option cid) (m : bmsg)
+         (seen : list cid) : list cid :=
+  match pools with
+  | [] => []
+  | p :: ps => let l := recips own eaves p from addr m seen in
+               l ++ passes own eaves ps from addr m (l ++ seen)
+  end.
+
+(* bus_matchmaker_get_recipients: the rules without type and interface; those with just the message's interface (if it
+   has one); and, only if the message type is one of the four defined ones, those with just its type and those with both *)
 Definition get_recipients (own : registry) (eaves : bool) (rules : list (cid * flt)) (from addr : option cid) (m : bmsg) : list cid :=
-  recips own eaves rules from addr m (match addr with Some a => [a] | None => [] end).
+  let has_iface := negb (b_iface m =? 0) in
+  let neither := pool rules None None in
+  let just_iface := if has_iface then pool rules None (Some (b_iface m)) else [] in
+  let just_type := match b_type m with TKnown k => pool rules (Some k) None | TOther _ => [] end in
+  let both := match b_type m with
+              | TKnown k => if has_iface then pool rules (Some k) (Some (b_iface m)) else []
+              | TOther _ => []
+              end in
+  passes own eaves [neither; just_iface; just_type; both] from addr m (match addr with Some a => [a] | None => [] end).
 
 (* bus_transaction_capture *)
 Definition capture (st : state) (from addr : option cid) (m : bmsg) : list cid :=
@@ -312,8 +353,10 @@ Definition refusal_item (st : state) (from : option cid) (m : bmsg) : item :=
    <deny send_interface="t.DenySend"/> and <deny receive_interface="t.DenyRecv"/>.  A deny rule naming an
    interface also applies to messages WITHOUT an INTERFACE field, and (requested_reply defaults to false on
    deny rules) is skipped for a requested reply. *)
+Definition unknown_type (m : bmsg) : bool := match b_type m with TKnown _ => false | TOther _ => true end.
+(* "Message bus will not accept messages of unknown type": the first test of bus_context_check_security_policy *)
 Definition deny_send (m : bmsg) (requested : bool) : bool :=
-  ((b_iface m =? I_NONE) || (b_iface m =? I_DENY_SEND)) && negb requested.
+  unknown_type m || (((b_iface m =? I_NONE) || (b_iface m =? I_DENY_SEND)) && negb requested).
 Definition deny_recv (m : bmsg) (requested : bool) : bool :=
   ((b_iface m =? I_NONE) || (b_iface m =? I_DENY_RECV)) && negb requested.
 
@@ -345,6 +388,7 @@ Fixpoint check_reply (l : list pend) (sd g s : N) : option (list pend) :=
 
 (* bus_context_check_security_policy (sender c active, addressed = proposed = r) *)
 Definition check_policy (pl : list pend) (c r : cid) (m : bmsg) : list pend * option N :=
+  if unknown_type m then (pl, Some E_ACCESS_DENIED) else       (* refused before the reply bookkeeping is touched *)
   let '(pl1, requested) :=
     if b_rserial m =? 0 then (pl, false)
     else match check_reply pl c r (b_rserial m) with Some pl' => (pl', true) | None => (pl, false) end in
@@ -672,6 +716,7 @@ Definition wf_msg (m : bmsg) : bool :=
    | TSignal => negb (b_member m =? 0) && negb (b_iface m =? 0)
    | TReturn => negb (b_rserial m =? 0)
    | TError => negb (b_rserial m =? 0) && negb (b_err m =? 0)
+   | TOther n => 5 <=? n                      (* 0 is DBUS_MESSAGE_TYPE_INVALID (corrupt), 1..4 are the known types *)
    end).
 
 Definition wf_event (st : state) (e : event) : bool :=
